@@ -476,6 +476,12 @@ func (g *gen) genStructLike(fi int, kind string) *sym {
 		if g.r.Chance(1, 2) {
 			txt += []string{",", ";"}[g.r.Intn(2)]
 		}
+		if g.r.Chance(1, 6) {
+			// a trailing comment in somebody's own language: multi-byte characters inside a definition body
+			// (a file cut short by a storage fault can end in the middle of one)
+			txt += " // " + []string{"说明:字段", "café ☕ naïve", "данные поля", "μ-unit ±1", "フィールド"}[g.r.Intn(5)]
+			g.stat("non-ascii-comments")
+		}
 		g.emit(fi, Line{Text: txt, Kind: "field", Owner: s.name, Defines: s.name + "." + fname, Refs: refsOf(refs)})
 		for _, r := range refs {
 			if r.file != fi {
